@@ -69,8 +69,50 @@ def _norm_case(draw):
     return {"t": "normalize", "A": A}
 
 
+@st.composite
+def _big_measure_case(draw):
+    """thousands of samples (chunked implementations) or hundreds of classes (class ids beyond small cached ints)"""
+    how = draw(st.sampled_from(["many_samples", "many_classes"]))
+    if how == "many_samples":
+        K = draw(st.integers(2, 5))
+        n = draw(st.sampled_from([4095, 4096, 4097, 5000, 8193]))
+    else:
+        K = draw(st.sampled_from([257, 258, 300]))
+        n = K + draw(st.integers(0, 40))
+    seed = draw(st.integers(0, 2**31 - 1))
+    noise = draw(st.sampled_from([0, 1, 7]))
+    return {"t": "measure", "gen": [how, K, n, seed, noise], "as_array": draw(st.booleans()), "mode": "big_" + how, "dtype": "int64"}
+
+
+def _expand(case):
+    """big cases are stored compactly (generator parameters) and expanded deterministically"""
+    if "gen" not in case:
+        return case
+    how, K, n, seed, noise = case["gen"]
+    lab = [i % K for i in range(n)]
+    # a fixed pseudo-random permutation / corruption derived from the drawn integer (no RNG object involved)
+    a, b = 1103515245, 12345
+    state = seed % (2**31)
+    pr = list(lab)
+    for _ in range(noise):
+        state = (a * state + b) % (2**31)
+        i = state % n
+        state = (a * state + b) % (2**31)
+        pr[i] = state % K
+    return dict(case, labels=lab, preds=pr)
+
+
 def strategy(tier):
-    return st.one_of(_measure_case(), _measure_case(), _measure_case(), _measure_case(), _norm_case())
+    @st.composite
+    def mix(draw):
+        r = draw(st.integers(0, 59))
+        if r == 0:
+            return draw(_big_measure_case())
+        if r < 12:
+            return draw(_norm_case())
+        return draw(_measure_case())
+
+    return mix()
 
 
 def check_case(case):
@@ -103,6 +145,7 @@ def check_case(case):
                 require(math.isfinite(got) and abs(got - ref) <= tol, "normalize:zscore", lambda: "column %d row %d: got %r expected %r (A=%r)" % (j, i, got, ref, case["A"]))
         return Outcome.ok(nontrivial=nonconst >= 2, classes=["normalize", "nonconst_cols=%d" % min(nonconst, 3)])
 
+    case = _expand(case)
     lab, pr = case["labels"], case["preds"]
     n = len(lab)
     K = max(lab) + 1
@@ -116,8 +159,9 @@ def check_case(case):
     pair = [[0] * K for _ in range(K)]
     for a, b in zip(lab, pr):
         pair[a][b] += 1
-    FP = [sum(pair[a][c] for a in range(K) if a != c) for c in range(K)]
-    FN = [sum(pair[c][b] for b in range(K) if b != c) for c in range(K)]
+    colsum = [sum(pair[a][c] for a in range(K)) for c in range(K)]
+    FP = [colsum[c] - pair[c][c] for c in range(K)]
+    FN = [counts[c] - pair[c][c] for c in range(K)]
     tot = Fraction(0)
     for c in range(K):
         if n - counts[c] > 0:
@@ -151,7 +195,7 @@ def check_case(case):
     require((pu == 1.0) == pure, "purity:one_iff_pure", lambda: "purity=%r pure=%r (labels=%r preds=%r)" % (pu, pure, lab, pr))
 
     nt = K >= 2 and len(set(counts)) > 1 and (not all_correct) and any(a == b for a, b in zip(lab, pr))
-    cl = ["measure", "mode_" + case["mode"], "K=%d" % K if K <= 6 else "K>6", ("array_" + case.get("dtype", "int64")) if case["as_array"] else "list"]
+    cl = ["measure", "mode_" + case["mode"], "K=%d" % K if K <= 6 else ("K>6" if K <= 24 else "K>=257"), ("array_" + case.get("dtype", "int64")) if case["as_array"] else "list"]
     if any(sum(pair[a][c] for a in range(K)) == 0 for c in range(K)):
         cl.append("class_never_predicted")
     return Outcome.ok(nontrivial=nt, classes=cl)
